@@ -51,7 +51,10 @@ func TestHobGuidPaddingWithDirtyCapacity(t *testing.T) {
 		want = append(want, content...)
 		want = append(want, make([]byte, padded-n)...)
 		if !bytes.Equal(out.Bytes(), want) {
-			lo, hi := diffRange(out.Bytes(), want)
+			lo, hi := -1, -1
+			if out.Len() == len(want) {
+				lo, hi = diffRange(out.Bytes(), want)
+			}
 			ev.Violation(t, "C18/hob-guid-padding-not-zero", "CreateEFIHOBGUID with %d data bytes in a buffer with %d spare dirty bytes: output differs from header+data+zero padding in [%d,%d): got %s want %s", n, spare, lo, hi, hx(out.Bytes()), hx(want))
 			return
 		}
